@@ -99,7 +99,7 @@ CLAIMED = {
             'DESIGN.md section 3, C07'),
     'C14': ('fault_enumeration',
             'fault enumeration with property-based placement (Hypothesis): every row of a refusal catalogue (mutator x cause x stage) injected at generated points of generated histories; twin-run byte comparison',
-            'The refusal catalogue (vf/model.py BadCatalogue, 117 rows: 11 late refusals of records that already reserved a Rock Ridge continuation area; 30 rows added after the fourth sensitivity round - a taken Rock Ridge name under fresh other names, empty-string paths per call and namespace, the Joliet-only directory calls, clear_hidden, open on an initialised object, calls without a path, an unrepresentable UDF symlink target; and bad/duplicate/over-long name or missing parent in the first, second or third namespace, wrong entry type, missing Rock Ridge name, foreign-namespace arguments, depth, invalid boot parameters with and without a boot info table, duplicate catalog names per namespace, hybrid parameters, wrong object state ...) is enumerated; each refused call is placed at a drawn point of a generated history. The image written right after the refused call must equal the one written right before it, the final image must equal that of the twin run without the refused calls, later edits must behave identically and no write may fail; finally both runs give everything back (El Torito, every file, symlink and directory, bottom-up) and the images must agree again, so that counters and reservations leaked by a refused call show when what they belong to is released. Evidence lists hits per catalogue row.',
+            'The refusal catalogue (vf/model.py BadCatalogue, 128 rows: 11 late refusals of records that already reserved a Rock Ridge continuation area; 30 rows added after the fourth sensitivity round - a taken Rock Ridge name under fresh other names, empty-string paths per call and namespace, the Joliet-only directory calls, clear_hidden, open on an initialised object, calls without a path, an unrepresentable UDF symlink target; and bad/duplicate/over-long name or missing parent in the first, second or third namespace, wrong entry type, missing Rock Ridge name, foreign-namespace arguments, depth, invalid boot parameters with and without a boot info table, duplicate catalog names per namespace, hybrid parameters, wrong object state ...) is enumerated; each refused call is placed at a drawn point of a generated history. The image written right after the refused call must equal the one written right before it, the final image must equal that of the twin run without the refused calls, later edits must behave identically and no write may fail; finally both runs give everything back (El Torito, every file, symlink and directory, bottom-up) and the images must agree again, so that counters and reservations leaked by a refused call show when what they belong to is released. Calls of the history itself that the library refuses (the model holds them valid) are treated the same way: a third run with the first such call taken out must refuse the same later calls and master the same bytes. Evidence lists hits per catalogue row.',
             'A catalogue call that the library accepts is handed to C13 (counted). modify_file_in_place refusals are C17.',
             'DESIGN.md section 3, C14 and appendix A'),
     'C17': ('exploration',
